@@ -766,6 +766,16 @@ def _np_outer(a, b):
     raise Unsupported('np.outer')
 
 
+def _np_flip(a, axis=None):
+    if not isinstance(a, STensor):
+        raise Unsupported('np.flip of %r' % type(a).__name__)
+    axes = list(range(a.ndim)) if axis is None else ([axis] if is_conc(axis) else list(axis))
+    key = [slice(None)] * a.ndim
+    for d in axes:
+        key[d % a.ndim] = slice(None, None, -1)
+    return tget(a, tuple(key))
+
+
 def _np_expand_dims(a, axis):
     if not isinstance(a, STensor):
         raise Unsupported('np.expand_dims of %r' % type(a).__name__)
@@ -898,6 +908,7 @@ def setup_namespaces():
                       'abs': _np_abs, 'ones': _np_ones, 'outer': _np_outer,
                       'stack': _np_stack, 'atleast_2d': _np_atleast_2d, 'repeat': _np_repeat,
                       'ravel': lambda a: (a if isinstance(a, IArr) and a.ndim == 1 else (t_reshape(a, -1) if isinstance(a, STensor) else _np_array(a))),
+                      'flip': _np_flip, 'flipud': lambda a: _np_flip(a, 0), 'fliplr': lambda a: _np_flip(a, 1),
                       'expand_dims': _np_expand_dims, 'newaxis': None, 'asarray': lambda x, dtype=None: _np_array(x, dtype),
                       'int32': 'int32', 'int64': 'int64', 'int_': 'int64', 'float32': 'float32', 'float64': 'float64',
                       'copy': _np_copy, 'sqrt': _np_sqrt, 'ndarray': TY_NDARRAY, 'load': Opaque_('np.load')})
@@ -962,6 +973,8 @@ def function_apply(it, cls, args):
     key = cls.modkey + ':' + cls.name + '.apply'
     c = it.contracts.get(key) or it.contracts.get(cls.name + '.apply')
     if c is not None:
+        from .interp import USED_CONTRACTS
+        USED_CONTRACTS.add(key)
         return c(it, *args)
     fctx = SObj(None)
     ng = []
